@@ -177,6 +177,49 @@ func runC05(r *vhlib.Run, which string) {
 		}
 		c05History(r, m, which, cfg, randXWOps(rng, 1+rng.Intn(40), maxw), "random")
 	}
+	// a destination that fails once and then works again: whenever Close nevertheless
+	// reports success, what the destination holds must be the complete stream
+	nf := 150
+	if !r.Quick() {
+		nf = 3000
+	}
+	for i := 0; i < nf; i++ {
+		cfg := randXWConfig(rng)
+		if cfg.Level < -2 || cfg.Level > 9 || cfg.ChunkSize < 0 {
+			continue
+		}
+		ops := randXWOps(rng, 3+rng.Intn(25), 40)
+		var bb bytes.Buffer
+		clean := runXW(cfg, ops, nil, &bb)
+		if clean.NewErr != "nil" || len(clean.Sink) == 0 {
+			continue
+		}
+		fs := &faultSink{At: rng.Intn(len(clean.Sink)), Kind: rng.Intn(2), Once: true}
+		res := runXW(cfg, ops, fs, nil)
+		r.Eval("transient-sink-fault", true, []byte(fmt.Sprint(cfg, fs.At, fs.Kind)), []byte(strings.Join(opsStrings(ops), " ")))
+		replay := map[string]interface{}{"level": cfg.Level, "chunk": cfg.ChunkSize, "index": cfg.Index, "ops": opsStrings(ops), "sink_fails_once_at": fs.At, "fault_kind": fs.Kind}
+		if res.Panic != "" {
+			r.Violate("panic", res.Panic, replay)
+			continue
+		}
+		if len(res.PerOp) == 0 || !strings.HasSuffix(res.PerOp[len(res.PerOp)-1], ":nil") {
+			r.Hist["transient-fault:close-reports-error"]++
+			continue
+		}
+		r.Hist["transient-fault:close-ok"]++
+		got := fs.Buf.Bytes()
+		if which == "C05" {
+			data, _, eo, er, pn := xfReadAll(got)
+			if pn != "" || eo != nil || er != nil || !bytes.Equal(data, res.Written) {
+				r.Violate("roundtrip", fmt.Sprintf("Close succeeded after a transient sink fault but the stream does not read back: open=%v read=%v len=%d/%d", eo, er, len(data), len(res.Written)), replay)
+			}
+		} else {
+			sOut, sCls, sUsed := stdInflateObs(got)
+			if sCls != "nil" || !bytes.Equal(sOut, res.Written) || sUsed != len(got) {
+				r.Violate("not-deflate(stdlib)", fmt.Sprintf("Close succeeded after a transient sink fault: cls=%s out=%d/%d used=%d/%d", sCls, len(sOut), len(res.Written), sUsed, len(got)), replay)
+			}
+		}
+	}
 	// stored chunks whose compressed size is 4096k + {0..4}: the chunk reader's
 	// last buffered read is then 0..4 bytes long
 	for _, raw := range []int{4085, 4086, 4087, 4088, 4089, 4090, 8183, 8184} {
